@@ -403,10 +403,15 @@ class RenderWorld:
         mlexer._regexp_cache.clear()
         self.lookup = mlookup.TemplateLookup(cache_impl="c16dict")
         self.lookup._mutex = s.lock()
-        self.lookup.put_string("base.html", BASE)
-        self.lookup.put_string("ns.html", NS)
-        self.lookup.put_string("inc.html", INC)
-        self.lookup.put_string("main.html", MAIN)
+        # the templates live in a sub-directory and name each other relatively, so that URI adjustment matters;
+        # same-named decoys answer to the unadjusted names
+        for d in ("base.html", "ns.html", "inc.html"):
+            self.lookup.put_string(d, "DECOY")
+            self.lookup.put_string("/" + d, "DECOY")
+        self.lookup.put_string("/sub/base.html", BASE)
+        self.lookup.put_string("/sub/ns.html", NS)
+        self.lookup.put_string("/sub/inc.html", INC)
+        self.lookup.put_string("/sub/main.html", MAIN)
 
     def close(self):
         self.sm.restore()
@@ -424,7 +429,7 @@ def solo_outputs():
             s2 = sched.Scheduler()
             w2 = RenderWorld(s2, False)
             try:
-                solos.append(w2.lookup.get_template("main.html").render(x=x))
+                solos.append(w2.lookup.get_template("/sub/main.html").render(x=x))
             finally:
                 w2.close()
         _PROC["solo"] = solos
@@ -432,7 +437,7 @@ def solo_outputs():
 
 
 def h_render(w, nthreads):
-    t = w.lookup.get_template("main.html")
+    t = w.lookup.get_template("/sub/main.html")
     solos = w.solos
 
     def mk(x):
@@ -476,7 +481,10 @@ def compile_solo(texts=None, key="csolo"):
         out = []
         for i, t in enumerate(texts):
             mlexer._regexp_cache.clear()
-            out.append(Template(t, uri="t%d" % i).render(x="1"))
+            if key == "esolo":
+                out.append(Template(t, uri="e%d" % i, imports=["from mc.props.c16 import tag"]).render(x=" 1 "))
+            else:
+                out.append(Template(t, uri="t%d" % i).render(x="1"))
         _PROC[key] = out
     return _PROC[key]
 
@@ -516,7 +524,37 @@ def h_compile_blocks(w, nthreads):
     return h_compile(w, nthreads, BLOCK_TEXTS)
 
 
-RENDER_HARNESSES = {"render": h_render, "compile": h_compile, "compile-blocks": h_compile_blocks}
+EXPR_TEXTS = [
+    "<%def name=\"f(a='tail', b=(1, 'A'))\">[${a}${b[1]}]</%def>${f()}${x | tag('A'), trim}<%def name=\"h()\" filter=\"tag('A2')\">h</%def>${h()}",
+    "<%def name=\"g(c='head', d=(2, 'B'))\">(${c}${d[1]})</%def>${g()}${x | tag('B'), trim}<%def name=\"k()\" filter=\"tag('B2')\">k</%def>${k()}",
+    "<%def name=\"m(e=[3, 'C'])\">{${e[1]}}</%def>${m()}${x | tag('C')}",
+]
+
+
+def tag(t):
+    return lambda s: "%s<%s>" % (t, s)
+
+
+def h_compile_calls(w, nthreads):
+    """concurrent first compiles with a yield point at every function entry of the compiler behind the lexer
+    (lexer, parse tree, Python analysis and re-emission, code generation, printer)"""
+    from mako.template import Template
+
+    texts = EXPR_TEXTS[:nthreads]
+    expected = w.solos
+
+    def mk(i):
+        def body():
+            t = Template(texts[i], uri="e%d" % i, imports=["from mc.props.c16 import tag"])
+            return (t.render(x=" 1 "), t.source)
+
+        return body
+
+    _, finish = h_compile(w, nthreads, EXPR_TEXTS)
+    return [mk(i) for i in range(nthreads)], finish
+
+
+RENDER_HARNESSES = {"render": h_render, "compile": h_compile, "compile-blocks": h_compile_blocks, "compile-calls": h_compile_calls, "compile-calls-wide": h_compile_calls}
 
 
 # --------------------------------------------------------------------------
@@ -532,12 +570,18 @@ def trace_prefixes(kind):
             os.path.join(repo, "mako", "cache.py"),
             os.path.join(repo, "mako", "template.py"),
             os.path.join(repo, "mako", "lookup.py"),
-            "main_html", "base_html", "ns_html", "inc_html",
+            "_sub_main_html", "_sub_base_html", "_sub_ns_html", "_sub_inc_html",
         )
     if kind in ("compile",):
         return (os.path.join(repo, "mako", "lexer.py"), os.path.join(repo, "mako", "template.py"))
     if kind == "compile-blocks":
         return (os.path.join(repo, "mako", "pygen.py"),)
+    if kind == "compile-calls":
+        # the Python analysis / re-emission entry points
+        return tuple(os.path.join(repo, "mako", f) for f in ("pyparser.py", "ast.py", "parsetree.py"))
+    if kind == "compile-calls-wide":
+        # everything behind the lexer's matchers (those are covered line by line by "compile")
+        return tuple(os.path.join(repo, "mako", f) for f in ("pyparser.py", "_ast_util.py", "ast.py", "parsetree.py", "codegen.py", "pygen.py", "filters.py"))
     return base
 
 
@@ -548,9 +592,17 @@ def run_one(spec, prefix, record=False):
     if name == "compile-blocks":
         # the re-margining scanners only (the printer itself runs for every generated line)
         names = {"adjust_whitespace", "in_multi_line", "_indent_line", "_flush_adjusted_lines", "_in_multi_line", "_reset_multi_line_flags", "write_indented_block", "_expand_leading_tabs"}
-    s = sched.Scheduler(prefix, trace_files=trace_prefixes(name) if fine else None, record_trace=record, trace_names=names)
+    s = sched.Scheduler(prefix, trace_files=trace_prefixes(name) if fine else None, record_trace=record, trace_names=names,
+                        trace_calls=name.startswith("compile-calls"), horizon=200000 if name.startswith("compile-calls") else 20000)
     if name in RENDER_HARNESSES:
-        solos = solo_outputs() if name == "render" else (compile_solo(BLOCK_TEXTS, "bsolo") if name == "compile-blocks" else compile_solo())
+        if name == "render":
+            solos = solo_outputs()
+        elif name == "compile-blocks":
+            solos = compile_solo(BLOCK_TEXTS, "bsolo")
+        elif name.startswith("compile-calls"):
+            solos = compile_solo(EXPR_TEXTS, "esolo")
+        else:
+            solos = compile_solo()
         w = RenderWorld(s, fine)
         if name in ("compile", "compile-blocks") and not fine:
             from mako import lexer as mlexer
@@ -605,6 +657,10 @@ def specs(tier):
     out.append(("render", 2, True, 1))  # ~830 line-level points: bound 2 would be ~10^5 executions of 50 ms each
     out.append(("compile", 2, False, 1 if q else 2))
     out.append(("compile-blocks", 2, True, 1 if q else 2))
+    out.append(("compile-calls", 2, True, 1))
+    if not q:
+        out.append(("compile-calls-wide", 2, True, 1))
+        out.append(("compile-calls", 3, True, 1))
     if not q:
         out.append(("compile", 2, True, 1))
         out.append(("render", 3, True, 1))
